@@ -256,8 +256,24 @@ def frame_obligations(I, st, c, fi, env, short):
                                                            "props": c.props}, assume_after=False)
 
 
+def function_shape(fi):
+    """loop headers of the function in source order: sidecar loop invariants are keyed by loop ordinal, so they only mean
+    what their author meant as long as this list is what it was when they were written"""
+    loops_ = [x for x in ast.walk(fi.node) if isinstance(x, (ast.For, ast.While, ast.AsyncFor))]
+    loops_.sort(key=lambda x: (x.lineno, x.col_offset))
+    out = []
+    for x in loops_:
+        # (kind and loop variables only: a changed condition or iterated expression is a change the invariants can judge)
+        if isinstance(x, ast.While):
+            out.append("while")
+        else:
+            out.append("for %s" % ast.unparse(x.target))
+    return out
+
+
 def verify_function(I, c, fi):
     res = FunctionResult(c.key)
+    res.shape = function_shape(fi)
     res.sha = fi.sha
     res.loc = fi.loc
     t0 = time.time()
